@@ -100,8 +100,17 @@ def lean_check(prop, thorough):
     res['checker_cmd'] = 'cd lean && python3 ../tools/instantiate.py && ' + ' '.join(cmd) + \
         ' && lake env lean .work/Audit_%s.lean  (#print axioms for every theorem)' % prop
     with LakeLock():
-        subprocess.run([sys.executable, os.path.join(core.ROOT, 'tools', 'instantiate.py')], check=True,
-                       stdout=subprocess.DEVNULL)
+        pi = subprocess.run([sys.executable, os.path.join(core.ROOT, 'tools', 'instantiate.py')],
+                            stdout=subprocess.PIPE, stderr=subprocess.STDOUT, text=True)
+        if pi.returncode != 0:
+            # A translator (tools/gen_*.py) rejected the current source: the generated part of the model
+            # cannot be regenerated, so nothing is proved about the new code (DESIGN.md section 4, row 1).
+            # Not an infrastructure error: go on to the failing-input search with the last model.
+            res['log'] = 'model regeneration failed (translator rejected the current source):\n' + pi.stdout[-3000:]
+            res['failed'] = [s_[0] for s_ in spans]
+            res['discharged'] = 0
+            res['regeneration_failed'] = True
+            return res
         if thorough:
             # do not trust cached .olean of the property module: force re-elaboration
             for ext in ('olean', 'ilean', 'trace', 'olean.hash', 'ilean.hash'):
